@@ -48,6 +48,15 @@ static json observe(const EclipseGrid& grid, const UnitSystem& us) {
         if (active && grid.activeIndex(ijk[0], ijk[1], ijk[2]) != grid.activeIndex(g)) ijk_ok = false;
         vol.push_back(toInt(us.from_si(M::geometric_volume, grid.getCellVolume(g))));
         if (std::fabs(grid.getCellVolume(g) - grid.getCellVolume(ijk[0], ijk[1], ijk[2])) > 0) ijk_ok = false;
+        // every accessor that exists in an (i,j,k) and a global-index form answers the same for the same cell
+        try {
+            if (grid.getCellThickness(g) != grid.getCellThickness(ijk[0], ijk[1], ijk[2])) ijk_ok = false;
+            if (grid.getCellDepth(g) != grid.getCellDepth(ijk[0], ijk[1], ijk[2])) ijk_ok = false;
+            if (grid.getCellDims(g) != grid.getCellDims(ijk[0], ijk[1], ijk[2])) ijk_ok = false;
+            if (grid.getCellCenter(g) != grid.getCellCenter(ijk[0], ijk[1], ijk[2])) ijk_ok = false;
+            if (grid.cellActive(g) != grid.cellActive(ijk[0], ijk[1], ijk[2])) ijk_ok = false;
+            if (std::fabs(grid.getCellThickness(g) - grid.getCellDims(g)[2]) > 1e-9 * std::max(1.0, grid.getCellDims(g)[2])) ijk_ok = false;
+        } catch (const std::exception&) { ijk_ok = false; }
         d2.push_back(toInt(2 * us.from_si(M::length, grid.getCellDepth(g))));
         const auto cd = grid.getCellDims(g);
         dims.push_back({toInt(us.from_si(M::length, cd[0])), toInt(us.from_si(M::length, cd[1])), toInt(us.from_si(M::length, cd[2]))});
